@@ -36,6 +36,8 @@ type DCVictim struct {
 	CloseAtMs int    `json:"close_at_ms"`
 	Reconnect bool   `json:"reconnect"`
 	QTimeout  uint16 `json:"q_timeout"`
+	Text      bool   `json:"text,omitempty"`       // a text (RESP) connection: no client id, at most one request left queued
+	MoreWills int    `json:"more_wills,omitempty"` // further will LOCKs (keys 10v+8..) registered after the three standard ones
 }
 
 type DCBody struct {
@@ -58,6 +60,18 @@ func genDisconnect(prop string, seed uint64, tier string) *Scenario {
 			vc.ClientId = 1 + v
 			vc.Reconnect = r.Intn(2) == 0
 		}
+		if r.Intn(3) == 0 {
+			vc.Text, vc.ClientId, vc.Reconnect = true, 0, false
+			if vc.NQueued > 1 {
+				vc.NQueued = 1
+			}
+		}
+		if vc.Wills && r.Intn(3) == 0 {
+			vc.MoreWills = 1 + r.Intn(2)
+			if r.Intn(3) == 0 {
+				vc.MoreWills = 3 + r.Intn(4)
+			}
+		}
 		body.Victims = append(body.Victims, vc)
 	}
 	raw, _ := json.Marshal(body)
@@ -67,6 +81,11 @@ func genDisconnect(prop string, seed uint64, tier string) *Scenario {
 		sc.Net = NetCfg{LatencyUs: r.Intn(3000), JitterUs: r.Intn(3000), FragPermil: []int{0, 300, 900}[r.Intn(3)]}
 	}
 	return sc
+}
+
+func dcKeyName(k int) string {
+	b := keyBytes(k)
+	return fmt.Sprintf("%x", b[:])
 }
 
 func dcClientId(i int) [16]byte {
@@ -105,7 +124,7 @@ func runDisconnect(w *World) {
 			if mg.refCount == 0xffffffff || mg.glock != pm {
 				continue
 			}
-			k := fmt.Sprintf("%x", mg.lockKey[:3])
+			k := fmt.Sprintf("%x", mg.lockKey[:])
 			held := len(holdersOf(mg)) > 0
 			seen[k] = true
 			if held && !lastHeld[k] {
@@ -196,22 +215,66 @@ func runDisconnect(w *World) {
 			total++
 			ssched.SpawnOn(0, fmt.Sprintf("victim%d", v), func() {
 				defer func() { fin++ }()
-				c, cid, err := newConn(vc.ClientId)
+				var c *binClient
+				var tc *textClient
+				var cid int
+				var err error
+				if vc.Text {
+					cid = nextCid
+					nextCid++
+					tc, err = newTextClient(w, h, leader.addr, cid)
+					w.probe("text_victims")
+				} else {
+					c, cid, err = newConn(vc.ClientId)
+				}
 				if err != nil {
 					w.logf("victim %d dial: %v", v, err)
 					return
 				}
 				idx := 0
 				lid := 100 + v
+				send := send
+				if vc.Text {
+					// the same script over a text connection: registrations are answered +OK, every
+					// other command line is answered before the next is sent (the last one may be left queued)
+					send = func(_ *binClient, cid int, idx *int, op OpSpec, wait bool) *ReqRec {
+						if op.Cmd == protocol.COMMAND_WILL_LOCK || op.Cmd == protocol.COMMAND_WILL_UNLOCK {
+							o := op
+							o.Cmd -= 7
+							args := append(textLockArgs(&o), "WILL", "1")
+							if v, ok := tc.Do(args...); !ok || v.Kind != '+' {
+								w.violate("C18", "will_registration_refused", "victim %d: registering a will over a text connection answered %s", cid, v)
+							}
+							return nil
+						}
+						r := h.invoke(cid, *idx, op)
+						*idx++
+						if err := tc.Send(r); err != nil {
+							r.lost = true
+							return r
+						}
+						if wait {
+							waitReply(r, 20*time.Second)
+						}
+						return r
+					}
+				}
 				if vc.Wills {
 					send(c, cid, &idx, OpSpec{Cmd: protocol.COMMAND_WILL_LOCK, Key: 10 * v, Lid: lid, Expried: 300, Count: 0, Rcount: 5}, false)
 					send(c, cid, &idx, OpSpec{Cmd: protocol.COMMAND_WILL_UNLOCK, Key: 10 * v, Lid: lid}, false)
 					send(c, cid, &idx, OpSpec{Cmd: protocol.COMMAND_WILL_LOCK, Key: 10*v + 1, Lid: lid, Expried: 300, Count: 0, Rcount: 5}, false)
+					for x := 0; x < vc.MoreWills; x++ {
+						send(c, cid, &idx, OpSpec{Cmd: protocol.COMMAND_WILL_LOCK, Key: 1000 + 10*v + x, Lid: lid, Expried: 300, Count: 0, Rcount: 5}, false)
+					}
+					if vc.MoreWills > 0 {
+						w.probe("will_sets_with_more_wills")
+					}
 					w.probe("will_sets_registered")
 				}
 				for k := 0; k < vc.NHolds; k++ {
 					send(c, cid, &idx, OpSpec{Cmd: 1, Key: 10*v + 2 + k, Lid: lid, Expried: 8, Count: 0}, true)
 				}
+				queuedAt := w.now()
 				for q := 0; q < vc.NQueued; q++ {
 					send(c, cid, &idx, OpSpec{Cmd: 1, Key: 10*v + 5 + q, Lid: lid, Timeout: vc.QTimeout, Expried: 2, Count: 0}, false)
 				}
@@ -223,7 +286,7 @@ func runDisconnect(w *World) {
 					if vc.Wills {
 						_, na := holdOn(10 * v)
 						_, nb := holdOn(10*v + 1)
-						if na > 0 || nb > 0 || becameHeld[fmt.Sprintf("%x", func() []byte { b := keyBytes(10 * v); return b[:3] }())] > 0 {
+						if na > 0 || nb > 0 || becameHeld[dcKeyName(10*v)] > 0 {
 							w.violate("C18", "will_ran_before_disconnect", "victim %d: a will command has run while its connection is still open (will keys held: %d, %d)", v, na, nb)
 						}
 					}
@@ -236,16 +299,24 @@ func runDisconnect(w *World) {
 						}
 					}
 				})
-				switch vc.CloseMode {
-				case "client":
+				switch {
+				case vc.Text && vc.CloseMode == "client":
+					tc.Close()
+				case vc.Text && vc.CloseMode == "garbage":
+					_, _ = tc.conn.Write([]byte("\x00\xee junk that is not a command line\r\n"))
+				case vc.Text:
+					if tc.conn.Peer != nil {
+						tc.conn.Peer.ResetNow()
+					}
+				case vc.CloseMode == "client":
 					c.Close()
-				case "garbage":
+				case vc.CloseMode == "garbage":
 					junk := make([]byte, 64)
 					for i := range junk {
 						junk[i] = 0xEE
 					}
 					_, _ = c.conn.Write(junk)
-				case "server_reset":
+				case vc.CloseMode == "server_reset":
 					if c.conn.Peer != nil {
 						c.conn.Peer.ResetNow()
 					}
@@ -259,10 +330,18 @@ func runDisconnect(w *World) {
 					}
 				}
 				sleep(1500 * time.Millisecond)
+				if vc.Text && vc.NQueued > 0 {
+					// a text connection serves one command line at a time: while its last request is
+					// queued the server does not read the connection, so it learns of the end when that
+					// request is granted or times out. The property sets no deadline for the wills.
+					if d := queuedAt.Add(time.Duration(vc.QTimeout)*time.Second + 3500*time.Millisecond).Sub(w.now()); d > 0 {
+						sleep(d)
+					}
+				}
 				ssched.NoPreempt(func() {
 					if vc.Wills {
-						ka := fmt.Sprintf("%x", func() []byte { b := keyBytes(10 * v); return b[:3] }())
-						kbk := fmt.Sprintf("%x", func() []byte { b := keyBytes(10*v + 1); return b[:3] }())
+						ka := dcKeyName(10 * v)
+						kbk := dcKeyName(10*v + 1)
 						_, na := holdOn(10 * v)
 						db, nb := holdOn(10*v + 1)
 						w.probe("will_sets_checked")
@@ -275,6 +354,13 @@ func runDisconnect(w *World) {
 							w.violate("C18", "wills_out_of_order", "victim %d (closed by %s): wills LOCK A, UNLOCK A, LOCK B were registered in this order, but A is held afterwards: the unlock ran before the lock", v, vc.CloseMode)
 						case nb != 1 || becameHeld[ka] != 1:
 							w.violate("C18", "wills_incomplete", "victim %d (closed by %s): after its connection ended will key A became held %d times and B is held by %d (expected 1 and 1)", v, vc.CloseMode, becameHeld[ka], nb)
+						default:
+							for x := 0; x < vc.MoreWills; x++ {
+								if d, n := holdOn(1000 + 10*v + x); n != 1 || d != 1 {
+									w.violate("C18", "wills_incomplete", "victim %d (closed by %s, %d will commands on a %s connection): will LOCK number %d is held by %d (depth %d) 1.5 s after the connection ended, expected exactly once", v, vc.CloseMode, 3+vc.MoreWills, map[bool]string{true: "text", false: "binary"}[vc.Text], 4+x, n, d)
+									break
+								}
+							}
 						}
 					}
 					// holds stay valid until their term ends (8 s terms, checked 1.5 s after the end)
@@ -341,7 +427,7 @@ func runDisconnect(w *World) {
 			expect := 0
 			for _, vc := range body.Victims {
 				if vc.Wills {
-					expect++ // will key B, 300 s term
+					expect += 1 + vc.MoreWills // will key B and the further will LOCKs, 300 s terms
 				}
 			}
 			st := db.GetState()
